@@ -22,6 +22,10 @@ type Case struct {
 	FD    int      `json:"fd,omitempty"`
 	Chain []string `json:"chain"`
 	Via   string   `json:"via"`
+	// Place: where the last link of a module chain stands: "" a leaf's type, "leaf-list", or a member of a
+	// union: "union-first" (before a string member), "union-after-plain" (after an unrestricted member of the
+	// same type), "union-typedef" (the same inside a typedef that the leaf names).
+	Place string `json:"place,omitempty"`
 }
 
 func bi(s string) *big.Int { v, _ := new(big.Int).SetString(s, 10); return v }
@@ -66,7 +70,22 @@ func moduleText(c Case, k int) string {
 		}
 		body := fmt.Sprintf("type %s { %s%s \"%s\"; }", base(i), extra, stmt, c.Chain[i])
 		if i == k-1 {
-			fmt.Fprintf(&b, " leaf l { %s }\n", body)
+			plain := fmt.Sprintf("type %s;", base(i))
+			if extra != "" {
+				plain = fmt.Sprintf("type %s { %s}", base(i), extra)
+			}
+			switch c.Place {
+			case "leaf-list":
+				fmt.Fprintf(&b, " leaf-list l { %s }\n", body)
+			case "union-first":
+				fmt.Fprintf(&b, " leaf l { type union { %s type boolean; } }\n", body)
+			case "union-after-plain":
+				fmt.Fprintf(&b, " leaf l { type union { %s %s } }\n", plain, body)
+			case "union-typedef":
+				fmt.Fprintf(&b, " typedef u { type union { type boolean; %s %s } }\n leaf l { type u; }\n", plain, body)
+			default:
+				fmt.Fprintf(&b, " leaf l { %s }\n", body)
+			}
 		} else {
 			fmt.Fprintf(&b, " typedef t%d { %s }\n", i+1, body)
 		}
@@ -198,8 +217,15 @@ func check(c Case) (o ev.Outcome) {
 		o.OutOfClaim = "fraction-digits outside 1..18"
 		return
 	}
-	o.Key = fmt.Sprintf("%s|%d|%s|%q", c.Type, c.FD, c.Via, c.Chain)
-	o.Sample = map[string]any{"type": c.Type, "fraction-digits": c.FD, "chain": c.Chain, "via": c.Via}
+	o.Key = fmt.Sprintf("%s|%d|%s|%q|%s", c.Type, c.FD, c.Via, c.Chain, c.Place)
+	o.Sample = map[string]any{"type": c.Type, "fraction-digits": c.FD, "chain": c.Chain, "via": c.Via, "place": c.Place}
+	if c.Place != "" {
+		if c.Via != "module" {
+			o.OutOfClaim = "place without module"
+			return
+		}
+		o.Class("place/" + c.Place)
+	}
 	o.Class(c.Via + "/" + kindClass(c))
 	o.Class(fmt.Sprintf("chain-length-%d", len(c.Chain)))
 	o.NonTrivial = true
@@ -230,6 +256,12 @@ func check(c Case) (o ev.Outcome) {
 	parent := numref.Set{bt}
 	for k := 1; k <= len(c.Chain); k++ {
 		text := moduleText(c, k)
+		if k < len(c.Chain) && c.Place != "" {
+			// earlier links are judged with the last of them as a plain leaf
+			cc := c
+			cc.Place = ""
+			text = moduleText(cc, k)
+		}
 		var perr error
 		var errs []error
 		var got yang.YangRange
@@ -247,10 +279,24 @@ func check(c Case) (o ev.Outcome) {
 					return
 				}
 				accepted = true
+				yt := l.Type
+				if k == len(c.Chain) && strings.HasPrefix(c.Place, "union") {
+					// the restricted member is the first or the last one (if it equals the plain member before it, the
+					// two count as one member, with the same value set)
+					if yt.Kind != yang.Yunion || len(yt.Type) == 0 {
+						o.Violate("result-present", "C10/module/no-union-members", "clean process but the union has no members: %s", text)
+						return
+					}
+					if c.Place == "union-first" {
+						yt = yt.Type[0]
+					} else {
+						yt = yt.Type[len(yt.Type)-1]
+					}
+				}
 				if isLength(c.Type) {
-					got = l.Type.Length
+					got = yt.Length
 				} else {
-					got = l.Type.Range
+					got = yt.Range
 				}
 			}
 		}) || len(o.Violations) > 0 {
@@ -437,6 +483,8 @@ func gen(t *rapid.T) Case {
 	n := rapid.IntRange(1, 4).Draw(t, "links")
 	if c.Via == "api" {
 		n = 1
+	} else {
+		c.Place = rapid.SampledFrom([]string{"", "", "", "", "", "leaf-list", "union-first", "union-after-plain", "union-typedef"}).Draw(t, "place")
 	}
 	bt := builtin[c.Type]
 	parent := numref.Set{bt}
